@@ -4,7 +4,7 @@ from pcv import core, sccgen
 from pcv.props import scc_common as sc
 
 P = "PcVerif.Props.C15."
-THEOREMS = [P + t for t in ["scan_keys_nodup", "scan_collects_all", "scan_raises_iff_long_line"]]
+THEOREMS = [P + t for t in ["scan_keys_nodup", "scan_collects_all", "scan_raises_iff_long_line", "scan_holds_each", "scan_holds_only", "message_names", "error_names_each_offending_line"]]
 
 
 def make(tier, seed):
